@@ -10,10 +10,9 @@ import FastorModel.Props.C11
   `forward_subs_impl` / `backward_subs_impl` (including the backward inner product that starts AT the diagonal and relies on the
   zero-initialised x), `get_lu_solve` and the `solve<SolveCompType::…>` dispatch:
     forward_subs_correct, backward_subs_correct, lu_solve_correct (any factorisation `L*U = P*A`, any bijection p),
-    solve_blockLU_correct / solve_blockLUPiv_correct (all n > 8, via C11's lu_block_correct), solve_inv_correct.
-  Not proved: the floating-point residual bound (measured by the harness: a test); the simple-LU strategies inherit the partial
-  status of C11's Doolittle loops (lu_solve_correct applies to them given `IsLU`); SimpleInvPiv's column scatter
-  (`reconstruct_colwise`) is tied by the exact correspondence only.
+    solve_lu_correct (the four LU strategies, all n, via C11's lu_core_correct), solve_inv_correct.
+  Not proved: the floating-point residual bound (measured by the harness: a test); SimpleInvPiv's column scatter
+  (`reconstruct_colwise`) is tied by the exact correspondence only (partial: `solve_inv_correct` covers SimpleInv).
 -/
 namespace Fastor.C12
 open Fastor.LU Finset
@@ -51,29 +50,53 @@ theorem lu_solve_correct (n c : Nat) (A L U B : Mat K) (perm : Array Nat)
   apply sum_congr rfl; intro k hk
   rw [applyPivotV_get n A perm i k hi (mem_range.1 hk), e]
 
-/-- `solve<SolveCompType::BlockLU>(A, B)`, every n > 8, every number of columns -/
-theorem solve_blockLU_correct (ops : InvOps K) (hops : InvSpec ops) (inv : Nat → Mat K → Mat K) (gt : K → K → Bool)
-    (n c : Nat) (hn : 8 < n) (A B : Mat K) (hdef : BlockDefined ops n A)
-    (hd : ∀ i, i < n → (luPublicV ops gt .block n A).U.get i i ≠ 0)
-    (r j : Nat) (hr : r < n) (hj : j < c) :
-    ∑ k ∈ range n, A.get r k * (solve ops inv gt .blockLU n c A B).get k j = B.get r j := by
-  have h := Fastor.C11.lu_block_correct ops hops gt n hn A hdef
-  simp only [solve]
-  exact luSolve_solves n c A _ _ B id h hd r j hr hj
+/-- the LU strategy behind a solve strategy -/
+def luStrategyOf : SolveStrategy → Option Strategy
+  | .blockLU => some .block
+  | .simpleLU => some .simple
+  | .blockLUPiv => some .blockPiv
+  | .simpleLUPiv => some .simplePiv
+  | _ => none
 
-/-- `solve<SolveCompType::BlockLUPiv>(A, B)`, every n > 8, every number of columns, every input on which the pivoted strategy is defined -/
-theorem solve_blockLUPiv_correct (ops : InvOps K) (hops : InvSpec ops) (inv : Nat → Mat K → Mat K) (gt : K → K → Bool)
-    (n c : Nat) (hn : 8 < n) (A B : Mat K) (hdef : BlockDefined ops n (applyPivotV n A (pivotPerm gt n A)))
-    (hd : ∀ i, i < n → (luPublicV ops gt .blockPiv n A).U.get i i ≠ 0)
+/-- **solve_lu_correct** — `solve<SolveCompType::{Block,Simple}LU[Piv]>(A, B)`: EVERY size n, EVERY number of columns c (the
+`Tensor<T,M>` overload is c = 1), every A on which the LU strategy is defined (C11) and whose `U` has a non-zero diagonal
+(A invertible): `A * X = B`. -/
+theorem solve_lu_correct (ops : InvOps K) (hops : InvSpec ops) (inv : Nat → Mat K → Mat K) (gt : K → K → Bool)
+    (ss : SolveStrategy) (s : Strategy) (hs : luStrategyOf ss = some s)
+    (n c : Nat) (A B : Mat K) (hdef : Fastor.C11.LUDefined ops gt s n A)
+    (hd : ∀ i, i < n → (luPublicV ops gt s n A).U.get i i ≠ 0)
     (r j : Nat) (hr : r < n) (hj : j < c) :
-    ∑ k ∈ range n, A.get r k * (solve ops inv gt .blockLUPiv n c A B).get k j = B.get r j := by
-  simp only [solve]
-  have hU : (luPublicV ops gt .blockPiv n A).perm = pivotPerm gt n A := by simp [luPublicV]
-  have h : IsLU n (applyPivotV n A (luPublicV ops gt .blockPiv n A).perm) (luPublicV ops gt .blockPiv n A).L (luPublicV ops gt .blockPiv n A).U := by
-    rw [hU]
-    simp only [luPublicV, luCore, if_true]
-    exact luBlock_isLU ops hops n hn _ _ _ (fun i j _ _ _ => get_zero n n i j) (fun i j _ _ _ => get_zero n n i j) hdef
-  exact lu_solve_correct n c A _ _ B _ h hd (by rw [hU]; exact (pivotPerm_bijection gt n A).2.2.2) r j hr hj
+    ∑ k ∈ range n, A.get r k * (solve ops inv gt ss n c A B).get k j = B.get r j := by
+  have pb := pivotPerm_bijection gt n A
+  cases ss with
+  | simpleInv => simp [luStrategyOf] at hs
+  | simpleInvPiv => simp [luStrategyOf] at hs
+  | blockLU =>
+    have e : s = .block := by simpa [luStrategyOf] using hs.symm
+    subst e
+    have h := Fastor.C11.lu_core_correct ops hops true n A (by simpa [Fastor.C11.LUDefined, Fastor.C11.blocked, Strategy.pivoted] using hdef)
+    simp only [solve]
+    exact luSolve_solves n c A _ _ B id h hd r j hr hj
+  | simpleLU =>
+    have e : s = .simple := by simpa [luStrategyOf] using hs.symm
+    subst e
+    have h := Fastor.C11.lu_core_correct ops hops false n A (by simpa [Fastor.C11.LUDefined, Fastor.C11.blocked, Strategy.pivoted] using hdef)
+    simp only [solve]
+    exact luSolve_solves n c A _ _ B id h hd r j hr hj
+  | blockLUPiv =>
+    have e : s = .blockPiv := by simpa [luStrategyOf] using hs.symm
+    subst e
+    have h := Fastor.C11.lu_core_correct ops hops true n (applyPivotV n A (pivotPerm gt n A))
+      (by simpa [Fastor.C11.LUDefined, Fastor.C11.blocked, Strategy.pivoted] using hdef)
+    simp only [solve]
+    exact lu_solve_correct n c A _ _ B (pivotPerm gt n A) h hd pb.2.2.2 r j hr hj
+  | simpleLUPiv =>
+    have e : s = .simplePiv := by simpa [luStrategyOf] using hs.symm
+    subst e
+    have h := Fastor.C11.lu_core_correct ops hops false n (applyPivotV n A (pivotPerm gt n A))
+      (by simpa [Fastor.C11.LUDefined, Fastor.C11.blocked, Strategy.pivoted] using hdef)
+    simp only [solve]
+    exact lu_solve_correct n c A _ _ B (pivotPerm gt n A) h hd pb.2.2.2 r j hr hj
 
 /-- `solve<SolveCompType::SimpleInv>(A, B) = matmul(inverse(A), B)`: if `inverse` returns a right inverse (C10) then `A * X = B` -/
 theorem solve_inv_correct (ops : InvOps K) (inv : Nat → Mat K → Mat K) (gt : K → K → Bool) (n c : Nat) (A B : Mat K)
